@@ -413,3 +413,25 @@ impl RevokedCertParams {
 		})
 	}
 }
+
+/// Verification hooks (compiled only under `--cfg rustls_rcgen_verif`): forwarding
+/// functions that expose private units of this module to an external harness crate.
+#[cfg(rustls_rcgen_verif)]
+#[doc(hidden)]
+#[allow(missing_docs, unreachable_pub)]
+pub mod verif_hooks_crl {
+	use super::*;
+
+	pub fn crl_distribution_point_write_der(dp: &CrlDistributionPoint, writer: DERWriter) {
+		dp.write_der(writer)
+	}
+	pub fn crl_issuing_distribution_point_write_der(
+		idp: &CrlIssuingDistributionPoint,
+		writer: DERWriter,
+	) {
+		idp.write_der(writer)
+	}
+	pub fn revoked_cert_params_write_der(revoked: &RevokedCertParams, writer: DERWriter) {
+		revoked.write_der(writer)
+	}
+}
